@@ -418,11 +418,14 @@ def eval : Nat → Expr → M Val
     | .create f args => do
       let vs ← evalArgs n args
       callNamed n f vs
-    -- `<- e`: the operand's value; a variable that held the resource no longer owns it
+    -- `<- e`: the operand's value; a variable that held the resource no longer owns it (`<- x`, and
+    -- `<- x!` on an optional variable: the interpreter invalidates the moved composite, which the
+    -- variable's `SomeValue` still wraps — a later read of `x` is the same defensive check)
     | .move a => do
       let v ← eval n a
       (match a with
        | .var x => vacate (.var x) v
+       | .force (.var x) => vacate (.var x) v
        | _ => pure ())
       pure v
     | .destroy a => do
